@@ -16,6 +16,10 @@ CFLS = [0.01, 0.1, 1.0, 10.0, 100.0]
 
 
 def setup(ctx):
+    from .. import solvelog
+    solvelog.install()
+    ctx.on_begin.append(solvelog.reset)
+    ctx.require("solve:gear", "solve:cranknicolson", "solve:implicit")
     ctx.require("step:implicit", "step:cranknicolson", "step:gear", "step:backwardeuler", "step:trapezoidal",
                 "nogrowth", "order:implicit", "order:cranknicolson", "order:gear", "jacobian", "jacobian-conservative")
 
@@ -155,6 +159,65 @@ def matrix_step(ctx, rng, idx):
         exp2 = np.linalg.solve(I - th * dt2 * A, (I + (1 - th) * dt2 * A) @ Q1)
         ctx.close("matrix-step", np.max(np.abs(f.data[0] - exp2)) / (np.max(np.abs(Q1)) * (1 + 2 * z) + 1e-300), TOL_STEP, "matrix-step/%s/second-step-not-theta-scheme" % iname, {"rhs returns": "buffer" if buffer else "fresh"}, cls=cls)
     ctx.nontrivial("matrix", iname, n, z, buffer, model.islinear, Q0[:3])
+
+
+@group(quick=200, thorough=6000)
+def trajectory_in_solve(ctx, rng, idx):
+    """the same step formulas INSIDE real solves/restarts of a linear problem (save times inside the first and later steps, monitors,
+    an integrator object that has run before): every state of the recorded main trajectory is the theta-scheme / Crank-Nicolson
+    start + BDF2 recurrence image of the previous ones -- snapshots and monitors must not disturb the multistep history"""
+    from .. import solvelog
+    iname = ["gear", "gear", "cranknicolson", "implicit"][idx % 4]
+    s = _linear_scn(rng, nmax=14)
+    cfl = float(rng.choice([0.5, 1.0, 2.0, 5.0, 10 ** rng.uniform(-1, 1)]))
+    n = s.mesh.ncell
+    A, b = operator(s.disc, s.model, s.mesh)
+    with probes.quiet():
+        dt = float(np.min(s.disc.calc_timestep(s.field, cfl)))
+    N = int(rng.integers(2, 7))
+    t0 = s.field.time
+    # save times: inside the first step (most cases), inside later steps, exactly at the start
+    ts = []
+    if rng.random() < 0.7:
+        ts.append(t0 + dt * float(rng.uniform(0.05, 0.95)))
+    if rng.random() < 0.3:
+        ts.append(t0 + dt * float(rng.uniform(0.05, 0.95)))
+    for _ in range(int(rng.integers(0, 3))):
+        ts.append(t0 + dt * (int(rng.integers(1, N)) + float(rng.uniform(0.05, 0.95))))
+    if rng.random() < 0.2:
+        ts.append(t0)
+    ts = sorted(ts)
+    mons = {"residual": {"frequency": int(rng.integers(1, 3))}} if rng.random() < 0.5 else {}
+    used = bool(rng.random() < 0.3)
+    ctx.describe(integrator=iname, cfl=cfl, dt=dt, N=N, tsave=ts, save_times_in_units_of_dt=[(t - t0) / dt for t in ts], monitors=mons, integrator_used_before=used, **s.desc())
+    solver = gen.integ(iname)(s.mesh, s.disc)
+    try:
+        if used:
+            solver.solve(s.field, cfl * 0.6, [t0 + 0.3 * dt], stop={"maxit": 2})
+        del solvelog.LOGS[:]
+        solver.solve(s.field, cfl, ts, stop={"maxit": N, "tottime": 1e30}, monitors=mons)
+    except np.linalg.LinAlgError:
+        raise core.Skip("singular")
+    traj = solvelog.LOGS[-1].trajectory()
+    Q = [np.asarray(t["data"][0], float) for t in traj]
+    if len(Q) != N + 1 or not all(np.all(np.isfinite(q)) for q in Q):
+        raise core.Skip("trajectory not finite / not N steps")
+    I = np.eye(n)
+    cls = "solve:" + iname
+    th = THETA.get(iname, 0.5)
+    worst = 0.0
+    for k in range(N):
+        if iname == "gear" and k >= 1:
+            exp = Q[k] + np.linalg.solve(1.5 * I - dt * A, dt * (A @ Q[k] + b) + 0.5 * (Q[k] - Q[k - 1]))
+            what = "not-bdf2-recurrence"
+        else:
+            exp = Q[k] + np.linalg.solve(I / dt - th * A, A @ Q[k] + b)
+            what = "first-step-not-cranknicolson" if iname == "gear" else "not-theta-scheme"
+        sc = (np.max(np.abs(Q[k])) + np.max(np.abs(b)) * dt + 1e-300) * max(1.0, cfl)
+        err = float(np.max(np.abs(Q[k + 1] - exp)) / sc)
+        worst = max(worst, err)
+        ctx.close("trajectory", err, TOL_STEP, "solve/%s/%s" % (iname, what), {"step": k, "cfl": cfl, "save times / dt": [(t - t0) / dt for t in ts]}, cls=cls)
+    ctx.nontrivial("traj", iname, cfl, N, ts, s.desc())
 
 
 @group(quick=300, thorough=10000)
